@@ -1311,7 +1311,12 @@ def run(ctx):
 def _run(ctx, table_broken, use_model):
     table, msg = load_table()
     if table is None:
-        raise RuntimeError('translator failed (fail-closed): ' + msg)
+        # reported as a broken obligation by build_failure(); without a table the stall runs
+        # cannot attribute a blocked greenlet to a call site, so only that is reported
+        ctx.note('translator rejected the current source: ' + msg[:300])
+        ctx.evaluated(('translator-rejected', msg[:100]))
+        ctx.sample(dict(kind='translator-rejected', message=msg[:300]))
+        return
     ctx.extra['_table'] = table
     table_checks(ctx, table, use_model)
     quick = ctx.quick
@@ -1355,8 +1360,12 @@ def build_failure(ctx, rc, msg):
     searches for the concrete stall); anything else stays a broken check (None)."""
     table, tmsg = load_table()
     if table is None:
-        print('C14: translator is fail-closed and rejects the current source: %s' % tmsg)
-        return None
+        desc = ('the table of blocking call sites can no longer be regenerated from the current source '
+                '(tools/timeouts_ast.py is fail-closed and rejects it: %s); C14_table_all_guarded and '
+                'C14_table_model_scopes are no longer shown to hold' % (tmsg or '').strip()[:400])
+        ctx.extra['c14_table_broken'] = desc
+        print('C14: ' + desc)
+        return desc
     known = set(known_unguarded_of_prop())
     new = [u for u in table['unguarded'] if (u['method'], u['callee']) not in known]
     thm = failing_theorem(msg)
